@@ -65,6 +65,29 @@ def impl(case):
                     exp_cnt = np.bincount(np.asarray(m.spike_templates)[exp], minlength=nt)
                     if not (np.array_equal(got, exp) and np.array_equal(cnt, exp_cnt)):
                         inmem_ok = False
+                # ... and after the assignment vector of the model was edited IN PLACE (merge: every spike of the
+                # highest cluster goes to cluster 0): the per-template queries still follow the stored templates,
+                # the per-cluster queries the edited vector
+                st_file = np.array(case['st'], dtype=np.int64)
+                (d / 'second').mkdir()
+                m2 = D.load(D.write_dataset(d / 'second', case['spec']))     # a first load of a fresh copy
+                try:
+                    cur = m2.spike_clusters
+                    hi = int(np.max(cur))
+                    cur[cur == hi] = 0
+                    for c in sorted(set(case['cs']) | set(range(nt))):
+                        if not np.array_equal(m2.get_cluster_spikes(c), A._spikes_in_clusters(cur, [c])):
+                            inmem_ok = False
+                    for t in range(nt):
+                        exp_t = np.nonzero(st_file == t)[0]
+                        if not np.array_equal(m2.get_template_spikes(t), exp_t):
+                            inmem_ok = False
+                    for c in case['cs']:
+                        exp = np.nonzero(np.asarray(cur) == c)[0]
+                        if not np.array_equal(m2.get_template_counts(c), np.bincount(st_file[exp], minlength=nt)):
+                            inmem_ok = False
+                finally:
+                    m2.close()
             finally:
                 m.close()
         return dict(res=out, nt=nt, inmem_ok=inmem_ok)
@@ -132,6 +155,10 @@ def tally(rep, case, impl_res, ans):
         rep.count('dtype:' + case['dtype'])
     if case['op'] == 'gmean':
         rep.count('values_dtype:' + case.get('adtype', 'float64'))
+    if case['op'] == 'tcounts':
+        rep.count('model: spike_clusters.npy %s, template ids stored as %s' % (
+            'present' if case['spec'].get('spike_clusters') is not None else 'absent',
+            (case['spec'].get('dtypes') or {}).get('spike_templates', 'uint32')))
     if case['op'] == 'spc':
         rep.count('len:%s' % (len(case['sc']) if len(case['sc']) < 8 else '8+'))
         rep.count('ids:%s' % ('given' if case.get('ids') is not None else 'none'))
@@ -207,6 +234,8 @@ def gen(tier, rng):
         spec = D.random_spec(rng, raw=False, feats=False, tfeats=False)
         sc = spec.get('spike_clusters') or spec['spike_templates']
         nt = len(spec['templates'])
+        # stored template-id dtype (an int32 / float file is what the loader does not need to convert)
+        spec['dtypes'] = dict(spec.get('dtypes') or {}, spike_templates=rng.pick(['uint32', 'int32', 'int64', 'uint16', 'float64']))
         yield dict(p=PID, op='tcounts', sc=sc, st=spec['spike_templates'], nt=nt,
                    cs=sorted(set(sc) | {max(sc) + 1, 0})[:6], spec=spec)
     # random long vectors
